@@ -14,7 +14,8 @@ for k in $(ls "$src/out" | sort); do
       pk=$(grep -m1 '^package ' $d/demo*_test.go | awk '{print $2}' | sed 's/_test$//')
       case $pk in main) dd=cmd/shfmt;; typedjson) dd=syntax/typedjson;; *) dd=$pk;; esac
     fi
-    tools/seedconfirm.sh $d "$dd" "$pkgs" > $d/confirm.log 2>&1;   else echo "demo is not a go test; confirm by hand" > $d/confirm.log; fi
+    tools/seedconfirm.sh $d "$dd" "$pkgs" > $d/confirm.log 2>&1;   elif [ -f $d/demo.sh ]; then tools/seedconfirm.sh $d cmd/shfmt "$pkgs" > $d/confirm.log 2>&1
+  else echo "no demo found" > $d/confirm.log; fi
   tools/seedtest.sh $d $id $extra > $d/detect.log 2>&1; rc=$?
   echo "== $d caught=$([ $rc = 0 ] && echo yes || echo NO)"; grep -E "demo W|^ok|^FAIL|does not" $d/confirm.log | tr '\n' ' ' | cut -c1-300; echo; grep -E "^(VIOLATION|C[0-9]+ (ok|FAIL)|PATCH)" $d/detect.log | cut -c1-200
 done
